@@ -11,6 +11,10 @@ import (
 
 func init() { register("C01", c01r1, c01r2, c01r3, c01r4) }
 
+// The rules of C01 are evaluated on the inlined view (help_c12.go) of the functions they anchor at: a size
+// guard, a length computation, a header read, a flag test or a buffer write may sit in the function itself, in
+// a same-module helper it calls, or be materialised in a local boolean.
+
 // ---------------------------------------------------------------------------
 // limit arithmetic shared by R1 and R2
 
@@ -62,6 +66,114 @@ func (l *c01Limits) MinRecv() int64 {
 	return m
 }
 
+// c01Guard is a comparison of X with an integer constant found in an inlined view: on the outcome Accept of
+// the comparison value V (in frame Fr), X <= Max holds.
+type c01Guard struct {
+	Fr     *c04Frame
+	V      ssa.Value // the comparison
+	X      ssa.Value // the compared value (in Fr)
+	Max    int64
+	Accept bool
+	Pos    token.Pos
+}
+
+func (g c01Guard) is(at c04XAtom) bool { return at.Fr == g.Fr && at.V == g.V }
+
+// accept / reject as cut and mark predicates
+func (g c01Guard) accept(_ *c04XState, at c04XAtom, truth bool) bool {
+	return g.is(at) && truth == g.Accept
+}
+func (g c01Guard) reject(_ *c04XState, at c04XAtom, truth bool) bool {
+	return g.is(at) && truth != g.Accept
+}
+
+// c01GuardOf recognises "X > C", "X >= C", "X < C", "X <= C", "X == C", "X != C" (constant on either side; the
+// constant may be a helper's constant parameter).
+func c01GuardOf(x *c04X, fr *c04Frame, bo *ssa.BinOp) (c01Guard, bool) {
+	op := bo.Op
+	switch op {
+	case token.GTR, token.GEQ, token.LSS, token.LEQ, token.EQL, token.NEQ:
+	default:
+		return c01Guard{}, false
+	}
+	if !isIntType(bo.X.Type()) {
+		return c01Guard{}, false
+	}
+	xv := bo.X
+	k, isC := x.constOf(nil, fr, bo.Y)
+	if !isC {
+		k, isC = x.constOf(nil, fr, bo.X)
+		if !isC {
+			return c01Guard{}, false
+		}
+		xv = bo.Y
+		switch op { // mirror
+		case token.GTR:
+			op = token.LSS
+		case token.GEQ:
+			op = token.LEQ
+		case token.LSS:
+			op = token.GTR
+		case token.LEQ:
+			op = token.GEQ
+		}
+	}
+	if _, isConst := x.constOf(nil, fr, xv); isConst {
+		return c01Guard{}, false
+	}
+	g := c01Guard{Fr: fr, V: bo, X: xv, Pos: bo.Pos()}
+	switch op {
+	case token.GTR: // false: x <= c
+		g.Max, g.Accept = k, false
+	case token.GEQ: // false: x < c
+		g.Max, g.Accept = k-1, false
+	case token.LSS:
+		g.Max, g.Accept = k-1, true
+	case token.LEQ:
+		g.Max, g.Accept = k, true
+	case token.EQL:
+		g.Max, g.Accept = k, true
+	case token.NEQ:
+		g.Max, g.Accept = k, false
+	}
+	return g, true
+}
+
+// c01Guards lists the constant comparisons of a view.
+func c01Guards(x *c04X, root *c04Frame) []c01Guard {
+	var out []c01Guard
+	root.Walk(func(fr *c04Frame, in ssa.Instruction) {
+		if bo, ok := in.(*ssa.BinOp); ok {
+			if g, ok := c01GuardOf(x, fr, bo); ok {
+				out = append(out, g)
+			}
+		}
+	})
+	return out
+}
+
+// c01Rejects: once the guard's rejecting outcome is taken no success return of the root is reachable.
+func c01Rejects(c *Ctx, x *c04X, root *c04Frame, g c01Guard) bool {
+	ok, _ := x.Blocked(root.Entry(), &c04XQuery{Target: c12SuccessTarget(c, x, root.Fn), NeedMark: true, MarkCond: g.reject})
+	if !ok {
+		return false
+	}
+	// the function must be able to report an error at all
+	res := root.Fn.Signature.Results()
+	for i := 0; i < res.Len(); i++ {
+		if isErrorType(res.At(i).Type()) {
+			return true
+		}
+	}
+	return false
+}
+
+// c01Dominates: every path from the root's entry to the site passes the guard's accepting outcome.
+func c01Dominates(x *c04X, root *c04Frame, g c01Guard, site func(*c04XState, ssa.Instruction) bool) bool {
+	ok, _ := x.Blocked(root.Entry(), &c04XQuery{Target: site, CutCond: g.accept})
+	return ok
+}
+
 func (c *Ctx) c01Extract(rule string) *c01Limits {
 	l := &c01Limits{PlainCap: -1, WireCap: -1, RecvLimit: map[*ssa.Function]int64{}, RecvPos: map[*ssa.Function]token.Pos{}}
 	send := c.needFn(rule, "stream", "(*Stream).sendMessageWithEnd")
@@ -70,7 +182,9 @@ func (c *Ctx) c01Extract(rule string) *c01Limits {
 	rwc := c.needFn(rule, "stream", "(*Stream).readWithContext")
 	rf := c.needFn(rule, "stream", "(*Stream).ReceiveFrame")
 	rfe := c.needFn(rule, "stream", "(*Stream).ReceiveFrameWithEnd")
-	if send == nil || calc == nil || wwc == nil || rwc == nil || rf == nil || rfe == nil {
+	enc := c.needFn(rule, "stream", "(*Stream).encryptDataWithAAD")
+	dec := c.needFn(rule, "stream", "(*Stream).decryptDataWithAAD")
+	if send == nil || calc == nil || wwc == nil || rwc == nil || rf == nil || rfe == nil || enc == nil || dec == nil {
 		return l
 	}
 	// O: overhead of calculateEncryptedSize(plainSize) = plainSize + c
@@ -79,83 +193,112 @@ func (c *Ctx) c01Extract(rule string) *c01Limits {
 		l.Problems = append(l.Problems, "calculateEncryptedSize has no size parameter")
 		return l
 	}
-	max, adds, ok := c01MaxAddend(calc, par)
+	max, adds, ok := c01MaxAddend(c.Prog, calc, par)
 	if !ok {
 		l.Problems = append(l.Problems, "calculateEncryptedSize does not return its parameter plus constants on every path")
 		return l
 	}
 	l.Overhead, l.Addends = max, adds
 	// sender guards
-	data := c01Param(send, "data", 2)
-	writes := callsIn(send, wwc.Object())
-	if data == nil || len(writes) == 0 {
-		l.Problems = append(l.Problems, "sendMessageWithEnd: no data parameter or no writeWithContext call")
-		return l
-	}
-	isLenData := func(v ssa.Value) bool {
-		call, ok := c01IsBuiltin(c01Strip(v), "len")
-		return ok && call.Call.Args[0] == ssa.Value(data)
-	}
-	for _, b := range send.Blocks {
-		g, ok := c01BoundOf(b)
-		if !ok {
-			continue
+	{
+		x, root := c12View(c, send, calc, wwc, enc, dec)
+		data := c01Param(send, "data", 2)
+		isWrite := func(_ *c04XState, in ssa.Instruction) bool { _, ok := isCallTo(in, wwc.Object()); return ok }
+		writes := 0
+		root.Walk(func(_ *c04Frame, in ssa.Instruction) {
+			if isWrite(nil, in) {
+				writes++
+			}
+		})
+		if data == nil || writes == 0 {
+			l.Problems = append(l.Problems, "sendMessageWithEnd: no data parameter or no writeWithContext call")
+			return l
 		}
-		kind := ""
-		x := c01Strip(g.X)
-		if isLenData(x) {
-			kind = "plain"
-		} else if call, ok := x.(*ssa.Call); ok && calleeFn(call) == calc && len(call.Call.Args) == 2 && isLenData(call.Call.Args[1]) {
-			kind = "wire"
-		} else {
-			continue
-		}
-		if !c.c01ErrorEdge(send, g.Reject) {
-			continue // not a rejection (e.g. "if len(data) > 0 { hash it }")
-		}
-		dominatesAll := true
-		for _, w := range writes {
-			if !instrDominatedByEdge(send, g.Accept, w) {
-				dominatesAll = false
+		base := c01Base{v: c04XV{root, data}, lenOf: true}
+		for _, g := range c01Guards(x, root) {
+			kind := ""
+			off := int64(0)
+			cv := x.CanonInt(nil, g.Fr, g.X)
+			if call, ok := cv.V.(*ssa.Call); ok && calleeFn(call) == calc && len(call.Call.Args) == 2 {
+				if ts, ok := c01Terms(x, cv.Fr, call.Call.Args[1], base, 0); ok && len(ts) == 1 && ts[0].par && ts[0].c == 0 {
+					kind = "wire"
+				}
+			}
+			if kind == "" {
+				ts, ok := c01Terms(x, g.Fr, g.X, base, 0)
+				if !ok {
+					continue
+				}
+				kind = "plain"
+				for i, t := range ts {
+					if !t.par {
+						kind = ""
+						break
+					}
+					if i == 0 || t.c < off {
+						off = t.c
+					}
+				}
+				if kind == "" {
+					continue
+				}
+			}
+			if !c01Rejects(c, x, root, g) {
+				continue // not a rejection (e.g. "if len(data) > 0 { hash it }")
+			}
+			if !c01Dominates(x, root, g, isWrite) {
+				l.Problems = append(l.Problems, "sendMessageWithEnd: a size guard at "+c.Pos(g.Pos)+" does not dominate the connection write")
+				continue
+			}
+			switch kind {
+			case "plain":
+				if l.PlainCap < 0 || g.Max-off < l.PlainCap {
+					l.PlainCap, l.PlainPos = g.Max-off, g.Pos
+				}
+			case "wire":
+				if l.WireCap < 0 || g.Max < l.WireCap {
+					l.WireCap, l.WirePos = g.Max, g.Pos
+				}
 			}
 		}
-		if !dominatesAll {
-			l.Problems = append(l.Problems, "sendMessageWithEnd: a size guard at "+c.Pos(blockIf(b).Cond.Pos())+" does not dominate the connection write")
-			continue
-		}
-		switch kind {
-		case "plain":
-			if l.PlainCap < 0 || g.Max < l.PlainCap {
-				l.PlainCap, l.PlainPos = g.Max, blockIf(b).Cond.Pos()
-			}
-		case "wire":
-			if l.WireCap < 0 || g.Max < l.WireCap {
-				l.WireCap, l.WirePos = g.Max, blockIf(b).Cond.Pos()
-			}
+		if x.Overflow {
+			l.Problems = append(l.Problems, "sendMessageWithEnd: the inlined control flow is too large to search exhaustively")
 		}
 	}
 	// receiver guards: comparison of the wire length (encoding/binary Uint32 of the header) that
-	// rejects on one edge and whose accepting edge dominates the payload read
+	// rejects on one outcome and whose accepting outcome dominates the payload read
 	for _, fn := range []*ssa.Function{rf, rfe} {
-		reads := callsIn(fn, rwc.Object())
-		for _, b := range fn.Blocks {
-			g, ok := c01BoundOf(b)
-			if !ok || !c01IsWireLength(g.X) || !c.c01ErrorEdge(fn, g.Reject) {
+		x, root := c12View(c, fn, rwc, enc, dec)
+		for _, g := range c01Guards(x, root) {
+			wl := x.CanonInt(nil, g.Fr, g.X)
+			if !c01IsWireLength(wl.V) || !c01Rejects(c, x, root, g) {
 				continue
 			}
 			// the payload read: a readWithContext whose buffer is sized by the same value
-			dom := false
-			for _, r := range reads {
-				if ms, ok := memRoot(r.Common().Args[2]).(*ssa.MakeSlice); ok && c01Same(ms.Len, g.X) && instrDominatedByEdge(fn, g.Accept, r) {
-					dom = true
+			payload := func(st *c04XState, in ssa.Instruction) bool {
+				r, ok := isCallTo(in, rwc.Object())
+				if !ok {
+					return false
 				}
+				buf, _ := x.WholeOf(st, st.Fr, r.Common().Args[2])
+				ms, ok := buf.V.(*ssa.MakeSlice)
+				return ok && x.CanonInt(st, buf.Fr, ms.Len) == wl
 			}
-			if !dom {
+			have := false
+			root.Walk(func(fr *c04Frame, in ssa.Instruction) {
+				if payload(&c04XState{Fr: fr, B: in.Block()}, in) {
+					have = true
+				}
+			})
+			if !have || !c01Dominates(x, root, g, payload) {
 				continue
 			}
 			if old, have := l.RecvLimit[fn]; !have || g.Max < old {
-				l.RecvLimit[fn], l.RecvPos[fn] = g.Max, blockIf(b).Cond.Pos()
+				l.RecvLimit[fn], l.RecvPos[fn] = g.Max, g.Pos
 			}
+		}
+		if x.Overflow {
+			l.Problems = append(l.Problems, fnName(fn)+": the inlined control flow is too large to search exhaustively")
 		}
 		if _, have := l.RecvLimit[fn]; !have {
 			l.Problems = append(l.Problems, fnName(fn)+": no constant bound on the wire length dominates the payload read")
@@ -178,7 +321,7 @@ func c01IsWireLength(v ssa.Value) bool {
 // C01-R1: whatever the sender accepts fits the receivers' limit.
 func c01r1(c *Ctx) {
 	const rule = "C01-R1"
-	c.Doc(rule, "limit arithmetic extracted from the code: the largest wire length sendMessageWithEnd can emit on an encrypting stream (its size guard on len(data) plus the largest constant overhead of calculateEncryptedSize, or its guard on the encrypted size) is <= the constant of the wire-length guard in ReceiveFrame and in ReceiveFrameWithEnd; both receivers use the same limit")
+	c.Doc(rule, "limit arithmetic extracted from the code: the largest wire length sendMessageWithEnd can emit on an encrypting stream (its size guard on len(data) plus the largest constant overhead of calculateEncryptedSize, or its guard on the encrypted size) is <= the constant of the wire-length guard in ReceiveFrame and in ReceiveFrameWithEnd; both receivers use the same limit; guards are found in the functions themselves, in same-module helpers they call and behind local booleans")
 	l := c.c01Extract(rule)
 	for i, p := range l.Problems {
 		c.Undecided(rule, fmt.Sprintf("extract#%d", i+1), p, token.NoPos)
@@ -246,16 +389,9 @@ func c01recvString(l *c01Limits) string {
 // ---------------------------------------------------------------------------
 // C01-R2: message layer
 
-// c01BufWrite is one write into Message.buffer on the encode side.
-type c01BufWrite struct {
-	Fn   *ssa.Function
-	Call ssa.CallInstruction
-	Ord  int
-}
-
 func c01r2(c *Ctx) {
 	const rule = "C01-R2"
-	c.Doc(rule, "message layer: every write of caller-sized data into the frame buffer (Message.buffer) has a constant upper bound U established by a comparison on a dominating edge or by the split loop's chunk size; U + worst-case encryption overhead <= the receivers' wire limit and U is accepted by the sender's guard; every such write is preceded by a flush decision on the buffer length")
+	c.Doc(rule, "message layer: every write of caller-sized data into the frame buffer (Message.buffer) has a constant upper bound U established by a comparison on a dominating edge or by the split loop's chunk size; U + worst-case encryption overhead <= the receivers' wire limit and U is accepted by the sender's guard; every such write is preceded by a flush decision on the buffer length. Each exported function of package message is examined with its unexported helpers inlined (a write, a size computation or the flush decision may sit in a helper)")
 	l := c.c01Extract(rule)
 	bufField := c.needField(rule, "message", "Message", "buffer")
 	flush := c.needFn(rule, "message", "(*Message).FlushFrame")
@@ -282,21 +418,77 @@ func c01r2(c *Ctx) {
 	}
 	msgPkg := c.PkgTypes("message")
 	readFrame := c.needObj(rule, "message", "StreamInterface.ReadFrame")
-	var sites []c01BufWrite
+	isBufWrite := func(in ssa.Instruction) (ssa.CallInstruction, bool) {
+		call, ok := isCallTo(in, wWrite, wByte, wString)
+		if !ok {
+			return nil, false
+		}
+		args := call.Common().Args
+		if len(args) < 2 || !readsField(args[0], bufField) {
+			return nil, false
+		}
+		return call, true
+	}
+	// which functions are examined on their own: the API (exported), and anything whose callers are not all
+	// known; unexported helpers are examined inside the views of their callers
+	var pkgFns []*ssa.Function
 	for _, fn := range c.FnsOfPkg("message") {
-		if fnPkg(fn) != msgPkg {
+		if fnPkg(fn) == msgPkg && fn.Parent() == nil {
+			pkgFns = append(pkgFns, fn)
+		}
+	}
+	allFns := fnSet(pkgFns...)
+	isRoot := func(fn *ssa.Function) bool {
+		if o := fn.Object(); o == nil || o.Exported() {
+			return true
+		}
+		allow := map[*ssa.Function]bool{}
+		for f := range allFns {
+			if f != fn {
+				allow[f] = true
+			}
+		}
+		return !c.onlyReachableFrom(fn, allow)
+	}
+	limit := l.MinRecv()
+	var maxU int64
+	nSites := 0
+	for _, fn := range pkgFns {
+		// cheap pre-filter: the function or an unexported helper must write into the buffer at all
+		x := c04NewX(c.Prog, flush)
+		for _, g := range pkgFns {
+			if o := g.Object(); o != nil && o.Exported() && g != fn {
+				x.Atomic[g] = true
+			}
+		}
+		// helpers of package message are followed whatever they contain (a size check, the flush decision,
+		// the write itself); functions of other packages only if they touch the frame buffer (none does)
+		x.Relevant = func(in ssa.Instruction) bool {
+			if f := in.Parent(); f != nil && fnPkg(f) == msgPkg {
+				return true
+			}
+			_, ok := isBufWrite(in)
+			return ok
+		}
+		root := x.Root(fn)
+		var sites []c12Site
+		root.Walk(func(fr *c04Frame, in ssa.Instruction) {
+			if call, ok := isBufWrite(in); ok {
+				sites = append(sites, c12Site{fr, call})
+			}
+		})
+		if len(sites) == 0 || !isRoot(fn) {
 			continue
 		}
+		var guards []c01Guard
+		haveGuards := false
 		ord := 0
-		for _, call := range callsIn(fn, wWrite, wByte, wString) {
-			args := call.Common().Args
-			if len(args) < 2 || !readsField(args[0], bufField) {
-				continue
-			}
+		for _, s := range sites {
+			call := s.call
 			// decode side: the buffer is filled with frames read from the stream
 			fromWire := false
-			for _, o := range origins(fn, args[1]) {
-				if rc, idx := originCall(o); rc != nil && idx == 0 && readFrame != nil && types.Object(calleeObj(rc)) == readFrame {
+			for _, o := range x.Origins(nil, s.fr, call.Common().Args[1]) {
+				if rc, idx := originCall(o.V); rc != nil && idx == 0 && readFrame != nil && types.Object(calleeObj(rc)) == readFrame {
 					fromWire = true
 				}
 			}
@@ -304,52 +496,102 @@ func c01r2(c *Ctx) {
 				continue
 			}
 			ord++
-			sites = append(sites, c01BufWrite{fn, call, ord})
-		}
-	}
-	limit := l.MinRecv()
-	var maxU int64
-	for _, s := range sites {
-		fn, call := s.Fn, s.Call
-		construct := fmt.Sprintf("%s#buffer-write%d", fnName(fn), s.Ord)
-		var u int64
-		var ok bool
-		if types.Object(calleeObj(call)) == wByte {
-			u, ok = 1, true
-		} else {
-			u, ok = c01LenUB(fn, call.Common().Args[1], call.Block())
-		}
-		if !ok {
-			c.Undecided(rule, construct, "no constant upper bound on the number of bytes this call appends to the frame buffer (no dominating comparison of the length against a constant): a value larger than the frame limit would be flushed as one frame", call.Pos())
-			continue
-		}
-		if u > maxU {
-			maxU = u
-		}
-		switch {
-		case u+l.Overhead > limit:
-			c.Violate(rule, construct, fmt.Sprintf("up to %d bytes are appended to the frame buffer and flushed as one frame; on an encrypting stream the wire length is up to %d > receiver limit %d (values of %d..%d bytes cannot be sent encrypted)",
-				u, u+l.Overhead, limit, limit-l.Overhead+1, u), call.Pos())
-		case !l.SenderAccepts(u):
-			c.Violate(rule, construct, fmt.Sprintf("up to %d bytes are appended to the frame buffer and flushed as one frame, which sendMessageWithEnd rejects on an encrypting stream (plaintext cap %d, encrypted-size cap %d, overhead %d): the message layer does not split the value itself",
-				u, l.PlainCap, l.WireCap, l.Overhead), call.Pos())
-		default:
-			c.Ok(rule, construct, fmt.Sprintf("at most %d bytes per write; %d + overhead %d <= %d", u, u, l.Overhead, limit), call.Pos())
-		}
-		// flush decision before the write
-		cuts := newCuts()
-		allInstrs(fn, func(_ *ssa.BasicBlock, _ int, in ssa.Instruction) {
-			if cl, ok := isCallTo(in, bLen); ok && readsField(cl.Common().Args[0], bufField) {
-				cuts.AddInstrs(in)
+			nSites++
+			construct := fmt.Sprintf("%s#buffer-write%d", fnName(fn), ord)
+			var u int64
+			var ok bool
+			if types.Object(calleeObj(call)) == wByte {
+				u, ok = 1, true
+			} else {
+				if !haveGuards {
+					guards, haveGuards = c01Guards(x, root), true
+				}
+				u, ok = c01XLenUB(x, root, s, call.Common().Args[1], guards)
 			}
-			if _, ok := isCallTo(in, flush.Object()); ok {
-				cuts.AddInstrs(in)
+			if !ok {
+				c.Undecided(rule, construct, "no constant upper bound on the number of bytes this call appends to the frame buffer (no dominating comparison of the length against a constant): a value larger than the frame limit would be flushed as one frame", call.Pos())
+				continue
 			}
-		})
-		c.mustPassInstr(rule, construct+"/flush-decision", fn, call, cuts, "a test of the buffer length or a FlushFrame call")
+			if u > maxU {
+				maxU = u
+			}
+			switch {
+			case u+l.Overhead > limit:
+				c.Violate(rule, construct, fmt.Sprintf("up to %d bytes are appended to the frame buffer and flushed as one frame; on an encrypting stream the wire length is up to %d > receiver limit %d (values of %d..%d bytes cannot be sent encrypted)",
+					u, u+l.Overhead, limit, limit-l.Overhead+1, u), call.Pos())
+			case !l.SenderAccepts(u):
+				c.Violate(rule, construct, fmt.Sprintf("up to %d bytes are appended to the frame buffer and flushed as one frame, which sendMessageWithEnd rejects on an encrypting stream (plaintext cap %d, encrypted-size cap %d, overhead %d): the message layer does not split the value itself",
+					u, l.PlainCap, l.WireCap, l.Overhead), call.Pos())
+			default:
+				c.Ok(rule, construct, fmt.Sprintf("at most %d bytes per write; %d + overhead %d <= %d", u, u, l.Overhead, limit), call.Pos())
+			}
+			// flush decision before the write
+			decision := func(_ *c04XState, in ssa.Instruction) bool {
+				if cl, ok := isCallTo(in, bLen); ok && readsField(cl.Common().Args[0], bufField) {
+					return true
+				}
+				_, ok := isCallTo(in, flush.Object())
+				return ok
+			}
+			if ok, path := x.Blocked(root.Entry(), &c04XQuery{Target: s.at, CutInstr: decision}); ok {
+				c.Ok(rule, construct+"/flush-decision", "every path to it passes a test of the buffer length or a FlushFrame call", call.Pos())
+			} else {
+				c.Violate(rule, construct+"/flush-decision", "reachable without passing a test of the buffer length or a FlushFrame call", call.Pos(), c.describePath(path)...)
+			}
+		}
+		c12Overflow(c, rule, x, fn)
 	}
 	c.Note("%s: largest single write into the frame buffer: %d bytes", rule, maxU)
-	c.MinCount(rule, "encode-side writes into Message.buffer", len(sites), 7)
+	c.MinCount(rule, "encode-side writes into Message.buffer", nSites, 3)
+}
+
+// c01XLenUB bounds the length of the slice/string value arg written at site s of the view: from its shape
+// (followed through the frames it is passed along), or from a constant comparison of a value >= its length
+// whose accepting outcome every path to the site passes.
+func c01XLenUB(x *c04X, root *c04Frame, s c12Site, arg ssa.Value, guards []c01Guard) (int64, bool) {
+	best, have := int64(0), false
+	take := func(k int64, ok bool) {
+		if ok && (!have || k < best) {
+			best, have = k, true
+		}
+	}
+	// shape, in the frame of the write and in every caller frame the value is handed down from
+	cur := c04XV{s.fr, arg}
+	at := s.call.Block()
+	for i := 0; i < 6; i++ {
+		take(c01LenUB(cur.Fr.Fn, cur.V, at))
+		nx, ok := x.resolve1(nil, cur.Fr, cur.V)
+		if !ok {
+			break
+		}
+		if nx.Fr == cur.Fr.Parent && cur.Fr.Call != nil {
+			at = cur.Fr.Call.Block()
+		} else if nx.Fr != cur.Fr {
+			break // into a callee (value helper): its shape is judged at its return
+		}
+		cur = nx
+	}
+	// guards
+	base := c01Base{v: x.Canon(nil, s.fr, arg), lenOf: true}
+	for _, g := range guards {
+		ts, ok := c01Terms(x, g.Fr, g.X, base, 0)
+		if !ok {
+			continue
+		}
+		geq := true
+		for _, t := range ts {
+			if !t.par || t.c < 0 {
+				geq = false
+			}
+		}
+		if !geq || (have && g.Max >= best) {
+			continue
+		}
+		if c01Dominates(x, root, g, s.at) {
+			take(g.Max, true)
+		}
+	}
+	return best, have
 }
 
 // ---------------------------------------------------------------------------
@@ -357,133 +599,166 @@ func c01r2(c *Ctx) {
 
 func c01r3(c *Ctx) {
 	const rule = "C01-R3"
-	c.Doc(rule, "header symmetry: the writer stores the end-flag parameter at header[0] and binary.BigEndian.PutUint32 into header[1:5] of a NormalHeaderSize(=5)-byte array on every path to the connection write, and copies it to frame[:5]; both receivers fill a 5-byte buffer from the wire, take binary.BigEndian.Uint32 of [1:5] as the length that sizes the payload read; no other byte order touches a header")
+	c.Doc(rule, "header symmetry: the writer stores the end-flag parameter at header[0] and binary.BigEndian.PutUint32 into header[1:5] of a NormalHeaderSize(=5)-byte array on every path to the connection write, and copies it to frame[:5]; both receivers fill a 5-byte buffer from the wire, take binary.BigEndian.Uint32 of [1:5] as the length that sizes the payload read; no other byte order touches a header; same-module helpers of the three functions are followed")
 	send := c.needFn(rule, "stream", "(*Stream).sendMessageWithEnd")
 	wwc := c.needFn(rule, "stream", "(*Stream).writeWithContext")
 	rwc := c.needFn(rule, "stream", "(*Stream).readWithContext")
+	enc := c.needFn(rule, "stream", "(*Stream).encryptDataWithAAD")
+	dec := c.needFn(rule, "stream", "(*Stream).decryptDataWithAAD")
 	put := c.c01BinaryMethod(rule, "BigEndian", "PutUint32")
 	get := c.c01BinaryMethod(rule, "BigEndian", "Uint32")
 	hs, okH := c.c01ConstOf(rule, "stream", "NormalHeaderSize")
-	if send == nil || wwc == nil || rwc == nil || put == nil || get == nil || !okH {
+	if send == nil || wwc == nil || rwc == nil || enc == nil || dec == nil || put == nil || get == nil || !okH {
 		return
 	}
 	c.Check(hs == 5, rule, "stream.NormalHeaderSize", "header is 5 bytes (flag + 32-bit length)", fmt.Sprintf("NormalHeaderSize is %d, the CEDAR frame header is 5 bytes", hs), token.NoPos)
-	// slice15 reports whether v is X[1:5] and returns the root of X
-	slice15 := func(v ssa.Value) (ssa.Value, bool) {
-		sl, ok := v.(*ssa.Slice)
-		if !ok || sl.Low == nil || sl.High == nil {
-			return nil, false
+	isBinary := func(in ssa.Instruction) (ssa.CallInstruction, bool) {
+		if call, ok := in.(ssa.CallInstruction); ok {
+			if o := calleeObj(call); o != nil && o.Pkg() != nil && o.Pkg().Path() == "encoding/binary" {
+				return call, true
+			}
 		}
-		lo, ok1 := constInt(sl.Low)
-		hi, ok2 := constInt(sl.High)
-		return memRoot(sl.X), ok1 && ok2 && lo == 1 && hi == hs
+		return nil, false
 	}
-	arrayLen := func(root ssa.Value) int64 {
-		if al, ok := root.(*ssa.Alloc); ok {
-			if arr, ok := al.Type().Underlying().(*types.Pointer).Elem().Underlying().(*types.Array); ok {
-				return arr.Len()
+	view := func(fn *ssa.Function) (*c04X, *c04Frame) {
+		x, root := c12View(c, fn, wwc, rwc, enc, dec)
+		x.Relevant = func(in ssa.Instruction) bool {
+			if _, ok := isBinary(in); ok {
+				return true
 			}
+			if _, ok := isCallTo(in, wwc.Object(), rwc.Object()); ok {
+				return true
+			}
+			switch t := in.(type) {
+			case *ssa.Store:
+				_, isIA := t.Addr.(*ssa.IndexAddr)
+				return isIA
+			case *ssa.Call:
+				_, isCopy := c01IsBuiltin(t, "copy")
+				return isCopy
+			}
+			return false
 		}
-		if ms, ok := root.(*ssa.MakeSlice); ok {
-			if n, ok := constInt(ms.Len); ok {
-				return n
-			}
-		}
-		return -1
-	}
-	// binaryCalls lists calls into encoding/binary in fn
-	binaryCalls := func(fn *ssa.Function) []ssa.CallInstruction {
-		var out []ssa.CallInstruction
-		allInstrs(fn, func(_ *ssa.BasicBlock, _ int, in ssa.Instruction) {
-			if call, ok := in.(ssa.CallInstruction); ok {
-				if o := calleeObj(call); o != nil && o.Pkg() != nil && o.Pkg().Path() == "encoding/binary" {
-					out = append(out, call)
-				}
-			}
-		})
-		return out
+		return x, root
 	}
 	n := 0
 	// --- writer
-	end := c01Param(send, "end", 3)
-	var headers []ssa.Value
-	puts := newCuts()
-	for _, call := range binaryCalls(send) {
-		n++
-		construct := fmt.Sprintf("%s#header-length-encoding%d", fnName(send), n)
-		if types.Object(calleeObj(call)) != types.Object(put) {
-			c.Violate(rule, construct, "the frame header is written with "+calleeObj(call).FullName()+", not binary.BigEndian.PutUint32: the receivers parse a big-endian length", call.Pos())
-			continue
+	{
+		x, root := view(send)
+		// slice15 reports whether v is X[1:5] and returns the root of X
+		slice15 := func(fr *c04Frame, v ssa.Value) (c04XV, bool) {
+			cv := x.Canon(nil, fr, v)
+			sl, ok := cv.V.(*ssa.Slice)
+			if !ok || sl.Low == nil || sl.High == nil {
+				return c04XV{}, false
+			}
+			lo, ok1 := x.constOf(nil, cv.Fr, sl.Low)
+			hi, ok2 := x.constOf(nil, cv.Fr, sl.High)
+			r, _ := x.WholeOf(nil, cv.Fr, sl.X)
+			return r, ok1 && ok2 && lo == 1 && hi == hs
 		}
-		args := callArgs(call)
-		root, ok := slice15(args[len(args)-2])
-		if !ok || arrayLen(root) != hs {
-			c.Violate(rule, construct, "the length is not written to bytes [1:5] of a 5-byte header", call.Pos())
-			continue
-		}
-		c.Ok(rule, construct, "big-endian length at header[1:5]", call.Pos())
-		headers = append(headers, root)
-		puts.AddInstrs(call)
-	}
-	flagStores := newCuts()
-	for _, h := range headers {
-		allInstrs(send, func(_ *ssa.BasicBlock, _ int, in ssa.Instruction) {
-			st, ok := in.(*ssa.Store)
+		end := c01Param(send, "end", 3)
+		headers := map[c04XV]bool{}
+		putSites := map[ssa.Instruction]bool{}
+		root.Walk(func(fr *c04Frame, in ssa.Instruction) {
+			call, ok := isBinary(in)
 			if !ok {
 				return
 			}
-			ia, ok := st.Addr.(*ssa.IndexAddr)
-			if !ok || memRoot(ia.X) != h {
+			n++
+			construct := fmt.Sprintf("%s#header-length-encoding%d", fnName(send), n)
+			if types.Object(calleeObj(call)) != types.Object(put) {
+				c.Violate(rule, construct, "the frame header is written with "+calleeObj(call).FullName()+", not binary.BigEndian.PutUint32: the receivers parse a big-endian length", call.Pos())
 				return
 			}
-			if idx, isC := constInt(ia.Index); isC && idx == 0 {
-				if end != nil && st.Val == ssa.Value(end) {
-					flagStores.AddInstrs(st)
-				} else {
-					c.Violate(rule, fnName(send)+"#header-flag", "header[0] is assigned something other than the end-flag parameter", st.Pos())
-				}
+			args := callArgs(call)
+			r, ok := slice15(fr, args[len(args)-2])
+			if !ok || c04BufLen(r.V) != hs {
+				c.Violate(rule, construct, "the length is not written to bytes [1:5] of a 5-byte header", call.Pos())
+				return
+			}
+			c.Ok(rule, construct, "big-endian length at header[1:5]", call.Pos())
+			headers[r] = true
+			putSites[in] = true
+		})
+		isPut := func(_ *c04XState, in ssa.Instruction) bool { return putSites[in] }
+		// stores to index 0 of a header
+		flagStore := func(st *c04XState, in ssa.Instruction) (isStore, good bool) {
+			s, ok := in.(*ssa.Store)
+			if !ok {
+				return false, false
+			}
+			ia, ok := s.Addr.(*ssa.IndexAddr)
+			if !ok {
+				return false, false
+			}
+			r, _ := x.WholeOf(st, st.Fr, ia.X)
+			if !headers[r] {
+				return false, false
+			}
+			if idx, isC := x.constOf(st, st.Fr, ia.Index); !isC || idx != 0 {
+				return false, false
+			}
+			return true, end != nil && x.Canon(st, st.Fr, s.Val) == (c04XV{root, end})
+		}
+		root.Walk(func(fr *c04Frame, in ssa.Instruction) {
+			if is, good := flagStore(&c04XState{Fr: fr, B: in.Block()}, in); is && !good {
+				c.Violate(rule, fnName(send)+"#header-flag", "header[0] is assigned something other than the end-flag parameter", in.Pos())
 			}
 		})
-	}
-	for _, w := range callsIn(send, wwc.Object()) {
-		c.mustPassInstr(rule, fnName(send)+"#write<-length", send, w, puts, "binary.BigEndian.PutUint32 into header[1:5]")
-		c.mustPassInstr(rule, fnName(send)+"#write<-flag", send, w, flagStores, "a store of the end flag to header[0]")
-		// the frame starts with the header
-		frame := w.Common().Args[2]
-		okAll := true
-		for _, o := range origins(send, frame) {
-			found := false
-			allInstrs(send, func(_ *ssa.BasicBlock, _ int, in ssa.Instruction) {
-				cp, ok := in.(*ssa.Call)
-				if !ok {
-					return
+		isFlag := func(st *c04XState, in ssa.Instruction) bool { _, good := flagStore(st, in); return good }
+		for _, w := range c12Sites(root, func(call ssa.CallInstruction) bool { return calleeFn(call) == wwc }) {
+			for _, k := range []struct {
+				key, what string
+				cut       func(*c04XState, ssa.Instruction) bool
+			}{{"#write<-length", "binary.BigEndian.PutUint32 into header[1:5]", isPut}, {"#write<-flag", "a store of the end flag to header[0]", isFlag}} {
+				if ok, path := x.Blocked(root.Entry(), &c04XQuery{Target: w.at, CutInstr: k.cut}); ok {
+					c.Ok(rule, fnName(send)+k.key, "every path to it passes "+k.what, w.call.Pos())
+				} else {
+					c.Violate(rule, fnName(send)+k.key, "reachable without passing "+k.what, w.call.Pos(), c.describePath(path)...)
 				}
-				if _, isCopy := c01IsBuiltin(cp, "copy"); !isCopy {
-					return
-				}
-				dst, ok := cp.Call.Args[0].(*ssa.Slice)
-				if !ok || memRoot(dst) != o || dst.High == nil {
-					return
-				}
-				hi, isC := constInt(dst.High)
-				lo := int64(0)
-				if dst.Low != nil {
-					lo, _ = constInt(dst.Low)
-				}
-				if !isC || hi != hs || lo != 0 {
-					return
-				}
-				for _, h := range headers {
-					if memRoot(cp.Call.Args[1]) == h {
+			}
+			// the frame starts with the header
+			okAll := true
+			for _, o := range x.Origins(nil, w.fr, w.call.Common().Args[2]) {
+				found := false
+				root.Walk(func(fr *c04Frame, in ssa.Instruction) {
+					cp, ok := in.(*ssa.Call)
+					if !ok {
+						return
+					}
+					if _, isCopy := c01IsBuiltin(cp, "copy"); !isCopy {
+						return
+					}
+					dst, ok := cp.Call.Args[0].(*ssa.Slice)
+					if !ok || dst.High == nil {
+						return
+					}
+					same := false
+					for _, d := range x.Origins(nil, fr, dst.X) {
+						if d == o {
+							same = true
+						}
+					}
+					hi, isC := x.constOf(nil, fr, dst.High)
+					lo := int64(0)
+					if dst.Low != nil {
+						lo, _ = x.constOf(nil, fr, dst.Low)
+					}
+					if !same || !isC || hi != hs || lo != 0 {
+						return
+					}
+					if r, _ := x.WholeOf(nil, fr, cp.Call.Args[1]); headers[r] {
 						found = true
 					}
+				})
+				if !found {
+					okAll = false
 				}
-			})
-			if !found {
-				okAll = false
 			}
+			c.Check(okAll, rule, fnName(send)+"#frame[:5]<-header", "every frame buffer handed to the connection write starts with a copy of the header", "a frame buffer handed to the connection write does not start with a copy of the 5-byte header", w.call.Pos())
 		}
-		c.Check(okAll, rule, fnName(send)+"#frame[:5]<-header", "every frame buffer handed to the connection write starts with a copy of the header", "a frame buffer handed to the connection write does not start with a copy of the 5-byte header", w.Pos())
+		c12Overflow(c, rule, x, send)
 	}
 	// --- receivers
 	for _, name := range []string{"(*Stream).ReceiveFrame", "(*Stream).ReceiveFrameWithEnd"} {
@@ -491,59 +766,121 @@ func c01r3(c *Ctx) {
 		if fn == nil {
 			continue
 		}
-		reads := callsIn(fn, rwc.Object())
-		var lens []ssa.Value
-		for _, call := range binaryCalls(fn) {
+		x, root := view(fn)
+		reads := c12Sites(root, func(call ssa.CallInstruction) bool { return calleeFn(call) == rwc })
+		filledBuf := map[c04XV]bool{}
+		for _, r := range reads {
+			buf, _ := x.WholeOf(nil, r.fr, r.call.Common().Args[2])
+			filledBuf[buf] = true
+		}
+		var lens []c04XV
+		root.Walk(func(fr *c04Frame, in ssa.Instruction) {
+			call, ok := isBinary(in)
+			if !ok {
+				return
+			}
 			n++
 			construct := fnName(fn) + "#header-length-decoding"
 			if types.Object(calleeObj(call)) != types.Object(get) {
 				c.Violate(rule, construct, "the frame header is parsed with "+calleeObj(call).FullName()+", not binary.BigEndian.Uint32: the sender writes a big-endian length", call.Pos())
-				continue
+				return
 			}
 			args := callArgs(call)
-			root, ok := slice15(args[len(args)-1])
-			filled := false
-			for _, r := range reads {
-				if memRoot(r.Common().Args[2]) == root {
-					filled = true
-				}
+			good := false
+			var buf c04XV
+			cv := x.Canon(nil, fr, args[len(args)-1])
+			if sl, isSl := cv.V.(*ssa.Slice); isSl && sl.Low != nil && sl.High != nil {
+				lo, ok1 := x.constOf(nil, cv.Fr, sl.Low)
+				hi, ok2 := x.constOf(nil, cv.Fr, sl.High)
+				buf, _ = x.WholeOf(nil, cv.Fr, sl.X)
+				good = ok1 && ok2 && lo == 1 && hi == hs
 			}
-			if !ok || arrayLen(root) != hs || !filled {
+			if !good || c04BufLen(buf.V) != hs || !filledBuf[buf] {
 				c.Violate(rule, construct, "the length is not taken from bytes [1:5] of the 5-byte buffer read from the wire", call.Pos())
-				continue
+				return
 			}
 			c.Ok(rule, construct, "big-endian length from header[1:5] of the buffer read from the wire", call.Pos())
-			lens = append(lens, call.Value())
-		}
+			lens = append(lens, c04XV{fr, call.Value()})
+		})
 		// the payload read is sized by that length
 		sized := 0
 		for _, r := range reads {
-			ms, ok := memRoot(r.Common().Args[2]).(*ssa.MakeSlice)
+			buf, _ := x.WholeOf(nil, r.fr, r.call.Common().Args[2])
+			ms, ok := buf.V.(*ssa.MakeSlice)
 			if !ok {
 				continue
 			}
+			if _, isC := constInt(ms.Len); isC {
+				continue // the fixed-size header buffer
+			}
 			sized++
 			good := false
+			sz := x.CanonInt(nil, buf.Fr, ms.Len)
 			for _, lv := range lens {
-				if c01Same(ms.Len, lv) {
+				if x.CanonInt(nil, lv.Fr, lv.V) == sz {
 					good = true
 				}
 			}
-			c.Check(good, rule, fnName(fn)+"#payload-size<-header-length", "the payload read is sized by the parsed header length", "the payload read is not sized by the length parsed from the header", r.Pos())
+			c.Check(good, rule, fnName(fn)+"#payload-size<-header-length", "the payload read is sized by the parsed header length", "the payload read is not sized by the length parsed from the header", r.call.Pos())
 		}
 		if sized == 0 {
 			c.Undecided(rule, fnName(fn)+"#payload-size<-header-length", "no payload read into a make([]byte, n) buffer found", fn.Pos())
 		}
 	}
-	c.MinCount(rule, "encoding/binary calls on frame headers", n, 4)
+	c.MinCount(rule, "encoding/binary calls on frame headers", n, 3)
 }
 
 // ---------------------------------------------------------------------------
 // C01-R4: end-flag discipline
 
+// c01ConstArgs resolves argument idx of call (in fn) to the constants it can be: the argument itself, or -
+// when it is a parameter of an unexported helper - the arguments of all the helper's call sites.
+func c01ConstArgs(p *Prog, fn *ssa.Function, call ssa.CallInstruction, idx int, depth int) (vals []int64, ok bool) {
+	args := call.Common().Args
+	if idx >= len(args) || depth > 3 {
+		return nil, false
+	}
+	v := args[idx]
+	if k, isC := constInt(v); isC {
+		return []int64{k}, true
+	}
+	if b, isB := constBool(v); isB {
+		if b {
+			return []int64{1}, true
+		}
+		return []int64{0}, true
+	}
+	par, isPar := v.(*ssa.Parameter)
+	if !isPar {
+		return nil, false
+	}
+	top := fn
+	if o := top.Object(); o == nil || o.Exported() || top.Parent() != nil {
+		return nil, false
+	}
+	pi := -1
+	for i, q := range top.Params {
+		if q == par {
+			pi = i
+		}
+	}
+	sites := p.callSites(top.Object())
+	if pi < 0 || len(sites) == 0 {
+		return nil, false
+	}
+	for _, cs := range sites {
+		sub, ok := c01ConstArgs(p, cs.Fn, cs.Call, pi, depth+1)
+		if !ok {
+			return nil, false
+		}
+		vals = append(vals, sub...)
+	}
+	return vals, true
+}
+
 func c01r4(c *Ctx) {
 	const rule = "C01-R4"
-	c.Doc(rule, "end-flag discipline: EndFlagPartial=0/EndFlagComplete=1; EndMessage and SendMessage pass the complete flag, flushPartialFrame and SendPartialMessage the partial flag to sendMessageWithEnd; WriteFrame/FlushFrame/FinishMessage map isEOM accordingly; ReceiveCompleteMessage returns only on the complete flag and readNextFrame/ReceiveCompleteMessage read another frame exactly when the flag is partial; ReadFrame reports flag != 0; ensureData stores it and stops on it")
+	c.Doc(rule, "end-flag discipline: EndFlagPartial=0/EndFlagComplete=1; EndMessage and SendMessage pass the complete flag, flushPartialFrame and SendPartialMessage the partial flag to sendMessageWithEnd (directly or through helpers only they call); WriteFrame/FlushFrame/FinishMessage map isEOM accordingly; ReceiveCompleteMessage returns only on the complete flag and readNextFrame/ReceiveCompleteMessage read another frame exactly when the flag is partial; ReadFrame reports flag != 0; ensureData stores it and stops on it; same-module helpers of these functions are followed")
 	send := c.needFn(rule, "stream", "(*Stream).sendMessageWithEnd")
 	rfe := c.needFn(rule, "stream", "(*Stream).ReceiveFrameWithEnd")
 	partial, ok1 := c.c01ConstOf(rule, "stream", "EndFlagPartial")
@@ -559,56 +896,76 @@ func c01r4(c *Ctx) {
 		"(*stream.Stream).SendPartialMessage": partial,
 		"(*stream.Stream).flushPartialFrame":  partial,
 	}
-	n := 0
-	for _, cs := range c.callSites(send.Object()) {
-		n++
-		name := fnName(topFn(cs.Fn))
-		construct := name + "#flag-arg"
-		args := cs.Call.Common().Args
-		v, isC := constInt(args[len(args)-1])
-		w, known := want[name]
-		switch {
-		case !known:
-			c.Undecided(rule, construct, "unknown caller of sendMessageWithEnd: cannot tell which end flag it must pass", cs.Call.Pos())
-		case !isC:
-			c.Undecided(rule, construct, "the end flag passed to sendMessageWithEnd is not a constant", cs.Call.Pos())
-		default:
-			c.Check(v == w, rule, construct, fmt.Sprintf("passes end flag %d", v), fmt.Sprintf("passes end flag %d, must pass %d: message boundaries are lost", v, w), cs.Call.Pos())
+	named := map[*ssa.Function]bool{}
+	for _, fn := range c.FnsOfPkg("stream") {
+		if _, ok := want[fnName(fn)]; ok {
+			named[fn] = true
 		}
 	}
-	c.MinCount(rule, "sendMessageWithEnd call sites", n, 4)
-	// WriteFrame: isEOM selects SendMessage / SendPartialMessage
+	n := 0
+	covered := map[ssa.Instruction]bool{}
+	var namedFns []*ssa.Function
+	for fn := range named {
+		namedFns = append(namedFns, fn)
+	}
+	sort.Slice(namedFns, func(i, j int) bool { return fnName(namedFns[i]) < fnName(namedFns[j]) })
+	for _, fn := range namedFns {
+		x, root := c12View(c, fn, send)
+		w := want[fnName(fn)]
+		for _, s := range c12Sites(root, func(call ssa.CallInstruction) bool { return calleeFn(call) == send }) {
+			n++
+			covered[s.call.(ssa.Instruction)] = true
+			args := s.call.Common().Args
+			v, isC := x.constOf(nil, s.fr, args[len(args)-1])
+			construct := fnName(fn) + "#flag-arg"
+			if !isC {
+				c.Undecided(rule, construct, "the end flag passed to sendMessageWithEnd is not a constant", s.call.Pos())
+				continue
+			}
+			c.Check(v == w, rule, construct, fmt.Sprintf("passes end flag %d", v), fmt.Sprintf("passes end flag %d, must pass %d: message boundaries are lost", v, w), s.call.Pos())
+		}
+	}
 	wf := c.needFn(rule, "stream", "(*Stream).WriteFrame")
+	for _, cs := range c.callSites(send.Object()) {
+		if covered[cs.Call.(ssa.Instruction)] {
+			continue
+		}
+		n++
+		if t := topFn(cs.Fn); wf != nil && (t == wf || c.onlyReachableFrom(t, fnSet(wf))) {
+			continue // WriteFrame (with the wrappers inlined): the flag is judged against isEOM below
+		}
+		c.Undecided(rule, fnName(topFn(cs.Fn))+"#flag-arg", "unknown caller of sendMessageWithEnd: cannot tell which end flag it must pass", cs.Call.Pos())
+	}
+	c.MinCount(rule, "sendMessageWithEnd call sites", n, 2)
+	// WriteFrame: isEOM selects SendMessage / SendPartialMessage
 	sm := c.needFn(rule, "stream", "(*Stream).SendMessage")
 	spm := c.needFn(rule, "stream", "(*Stream).SendPartialMessage")
 	if wf != nil && sm != nil && spm != nil {
-		eom := c01Param(wf, "isEOM", 3)
-		tE, fE := boolEdges(wf, eom)
+		x, root := c12View(c, wf, sm, spm, send)
+		eom := c04XV{root, c01Param(wf, "isEOM", 3)}
 		m := 0
-		for _, call := range callsIn(wf, sm.Object(), spm.Object(), send.Object()) {
+		for _, s := range c12Sites(root, func(call ssa.CallInstruction) bool {
+			g := calleeFn(call)
+			return g == sm || g == spm || g == send
+		}) {
+			call := s.call
 			m++
 			isComplete := calleeFn(call) == sm
 			if calleeFn(call) == send {
 				args := call.Common().Args
-				v, isC := constInt(args[len(args)-1])
+				v, isC := x.constOf(nil, s.fr, args[len(args)-1])
 				if !isC {
 					c.Undecided(rule, fnName(wf)+"#isEOM->flag", "non-constant flag", call.Pos())
 					continue
 				}
 				isComplete = v == complete
 			}
-			edges := fE
-			if isComplete {
-				edges = tE
-			}
-			dom := false
-			for _, e := range edges {
-				if instrDominatedByEdge(wf, e, call) {
-					dom = true
-				}
-			}
+			dom, _ := x.Blocked(root.Entry(), &c04XQuery{Target: s.at, CutCond: func(st *c04XState, at c04XAtom, truth bool) bool {
+				return at.Op == token.ILLEGAL && x.Canon(st, at.Fr, at.X) == eom && truth == isComplete
+			}})
 			c.Check(dom, rule, fmt.Sprintf("%s#isEOM->%s", fnName(wf), calleeFn(call).Name()), "the complete/partial sender is chosen by isEOM", "the sender chosen does not match isEOM (complete flag must be sent iff isEOM)", call.Pos())
 		}
+		c12Overflow(c, rule, x, wf)
 		c.MinCount(rule, "WriteFrame sends", m, 2)
 	}
 	// message layer: FlushFrame forwards its isEOM; FinishMessage flushes with true, everything else with false
@@ -616,74 +973,73 @@ func c01r4(c *Ctx) {
 	finish := c.needFn(rule, "message", "(*Message).FinishMessage")
 	wfI := c.needObj(rule, "message", "StreamInterface.WriteFrame")
 	if flush != nil && finish != nil && wfI != nil {
-		eom := c01Param(flush, "isEOM", 2)
+		x, root := c12View(c, flush)
+		eom := c04XV{root, c01Param(flush, "isEOM", 2)}
 		k := 0
-		for _, call := range callsIn(flush, wfI) {
+		for _, s := range c12Sites(root, func(call ssa.CallInstruction) bool { _, ok := isCallTo(call, wfI); return ok }) {
 			k++
-			args := call.Common().Args
-			c.Check(len(args) == 3 && args[2] == ssa.Value(eom), rule, fnName(flush)+"#isEOM-forwarded", "FlushFrame forwards isEOM to WriteFrame", "FlushFrame does not forward its isEOM argument to WriteFrame", call.Pos())
+			args := s.call.Common().Args
+			c.Check(len(args) == 3 && x.Canon(nil, s.fr, args[2]) == eom, rule, fnName(flush)+"#isEOM-forwarded", "FlushFrame forwards isEOM to WriteFrame", "FlushFrame does not forward its isEOM argument to WriteFrame", s.call.Pos())
 		}
 		c.MinCount(rule, "WriteFrame invokes in FlushFrame", k, 1)
 		k = 0
 		perCaller := map[*ssa.Function]int{}
+		finishOnly := fnSet(finish)
 		for _, cs := range c.callSites(flush.Object()) {
 			if !libPkg(fnPkg(cs.Fn).Path()) {
 				continue
 			}
 			k++
 			args := cs.Call.Common().Args
-			v, isC := constBool(args[len(args)-1])
 			caller := topFn(cs.Fn)
 			perCaller[caller]++
 			construct := fmt.Sprintf("%s#FlushFrame-eom%d", fnName(caller), perCaller[caller])
+			vals, isC := c01ConstArgs(c.Prog, cs.Fn, cs.Call, len(args)-1, 0)
 			if !isC {
 				c.Undecided(rule, construct, "non-constant isEOM passed to FlushFrame", cs.Call.Pos())
 				continue
 			}
-			if caller == finish {
-				c.Check(v, rule, construct, "FinishMessage flushes with isEOM=true", "FinishMessage flushes without the end-of-message flag: the peer waits for more frames", cs.Call.Pos())
+			allTrue, allFalse := true, true
+			for _, v := range vals {
+				if v == 0 {
+					allTrue = false
+				} else {
+					allFalse = false
+				}
+			}
+			if caller == finish || c.onlyReachableFrom(caller, finishOnly) {
+				c.Check(allTrue, rule, construct, "FinishMessage flushes with isEOM=true", "FinishMessage flushes without the end-of-message flag: the peer waits for more frames", cs.Call.Pos())
 			} else {
-				c.Check(!v, rule, construct, "intermediate flush with isEOM=false", "an intermediate flush sets the end-of-message flag: the message is cut at this point", cs.Call.Pos())
+				c.Check(allFalse, rule, construct, "intermediate flush with isEOM=false", "an intermediate flush sets the end-of-message flag: the message is cut at this point", cs.Call.Pos())
 			}
 		}
-		c.MinCount(rule, "FlushFrame call sites", k, 9)
+		c.MinCount(rule, "FlushFrame call sites", k, 2)
 	}
-	// receivers of flags
-	flagEdges := func(fn *ssa.Function, flag ssa.Value, val int64) (eq, ne []Edge) {
-		for _, b := range fn.Blocks {
-			ifi := blockIf(b)
-			if ifi == nil {
-				continue
-			}
-			a := condAtom(ifi.Cond)
-			if a.Op != token.EQL && a.Op != token.NEQ {
-				continue
-			}
-			var other ssa.Value
-			if stripConv(a.X) == flag {
-				other = a.Y
-			} else if stripConv(a.Y) == flag {
-				other = a.X
-			} else {
-				continue
-			}
-			cv, isC := constInt(other)
-			if !isC || cv != val {
-				continue
-			}
-			isEq := a.Op == token.EQL
-			if a.Neg {
-				isEq = !isEq
-			}
-			if isEq {
-				eq = append(eq, Edge{b, 0})
-				ne = append(ne, Edge{b, 1})
-			} else {
-				eq = append(eq, Edge{b, 1})
-				ne = append(ne, Edge{b, 0})
-			}
+	// receivers of flags: outcome of a comparison of the flag with one of the two constants:
+	// +1 = "more frames follow" (flag == partial / flag != complete), -1 = "stop", 0 = not such a test.
+	// cedar senders emit only the two flag values, so "== partial" and "!= complete" are the same decision.
+	flagTest := func(x *c04X, flag c04XV, st *c04XState, at c04XAtom, truth bool) int {
+		if at.Op != token.EQL && at.Op != token.NEQ {
+			return 0
 		}
-		return
+		var other ssa.Value
+		if x.Canon(st, at.Fr, stripConv(at.X)) == flag {
+			other = at.Y
+		} else if x.Canon(st, at.Fr, stripConv(at.Y)) == flag {
+			other = at.X
+		} else {
+			return 0
+		}
+		cv, isC := x.constOf(st, at.Fr, other)
+		if !isC || (cv != partial && cv != complete) {
+			return 0
+		}
+		isEq := (at.Op == token.EQL) == truth
+		more := (cv == partial) == isEq
+		if more {
+			return 1
+		}
+		return -1
 	}
 	rcm := c.needFn(rule, "stream", "(*Stream).ReceiveCompleteMessage")
 	rnf := c.needFn(rule, "stream", "(*Stream).readNextFrame")
@@ -691,38 +1047,40 @@ func c01r4(c *Ctx) {
 		if fn == nil {
 			continue
 		}
-		calls := callsIn(fn, rfe.Object())
+		x, root := c12View(c, fn, rfe)
+		calls := c12Sites(root, func(call ssa.CallInstruction) bool { return calleeFn(call) == rfe })
 		if len(calls) != 1 {
 			c.Undecided(rule, fnName(fn)+"#frames", fmt.Sprintf("%d ReceiveFrameWithEnd calls, expected one", len(calls)), fn.Pos())
 			continue
 		}
-		flag := extractN(calls[0].Value(), 1)
-		if flag == nil {
-			c.Violate(rule, fnName(fn)+"#endflag", "the end flag of the received frame is ignored", calls[0].Pos())
+		site := calls[0]
+		fv := extractN(site.call.Value(), 1)
+		if fv == nil {
+			c.Violate(rule, fnName(fn)+"#endflag", "the end flag of the received frame is ignored", site.call.Pos())
 			continue
 		}
-		// cedar senders emit only the two flag values, so "== partial" and "!= complete" are the
-		// same decision: continue edges = flag==partial or flag!=complete, stop edges = the others
-		pEq, pNe := flagEdges(fn, flag, partial)
-		cEq, cNe := flagEdges(fn, flag, complete)
-		moreE := append(append([]Edge{}, pEq...), cNe...)
-		stopE := append(append([]Edge{}, pNe...), cEq...)
+		flag := c04XV{site.fr, fv}
+		moreC := func(st *c04XState, at c04XAtom, truth bool) bool { return flagTest(x, flag, st, at, truth) == 1 }
+		stopC := func(st *c04XState, at c04XAtom, truth bool) bool { return flagTest(x, flag, st, at, truth) == -1 }
 		// "more" = another frame is read: the ReceiveFrameWithEnd call again (loop) or a self call (recursion)
-		more := newCuts().AddInstrs(calls[0])
-		for _, sc := range callsIn(fn, fn.Object()) {
-			more.AddInstrs(sc)
-		}
-		// (a) on a continue edge no success return is reached without reading another frame first
-		okA := len(moreE) > 0
-		var wit []*ssa.BasicBlock
-		for _, e := range moreE {
-			for _, t := range c.successTargets(fn) {
-				if p := findPath(Point{e.To(), 0}, t.Target(), more); p != nil {
-					okA, wit = false, p
-				}
+		readsMore := func(st *c04XState, in ssa.Instruction) bool {
+			if site.at(st, in) {
+				return true
 			}
+			call, ok := in.(ssa.CallInstruction)
+			return ok && calleeFn(call) == fn
 		}
-		c.Check(okA, rule, fnName(fn)+"#partial=>read-more", "after a partial frame another frame is always read", "after a frame with the partial flag the function can return success without reading the rest of the message (or never tests the flag)", calls[0].Pos(), c.describePath(wit)...)
+		success := c12SuccessTarget(c, x, fn)
+		// (a) on a continue edge no success return is reached without reading another frame first
+		tested := false
+		x.Search(root.Entry(), &c04XQuery{MarkCond: func(st *c04XState, at c04XAtom, truth bool) bool {
+			if flagTest(x, flag, st, at, truth) != 0 {
+				tested = true
+			}
+			return false
+		}})
+		okA, wit := x.Blocked(root.Entry(), &c04XQuery{Target: success, NeedMark: true, MarkCond: moreC, CutInstr: readsMore, CutAfterMark: true})
+		c.Check(okA && tested, rule, fnName(fn)+"#partial=>read-more", "after a partial frame another frame is always read", "after a frame with the partial flag the function can return success without reading the rest of the message (or never tests the flag)", site.call.Pos(), c.describePath(wit)...)
 		// (b) a success return is only reached over a stop edge
 		var tg []RetPoint
 		for _, t := range c.successTargets(fn) {
@@ -732,29 +1090,48 @@ func c01r4(c *Ctx) {
 			}
 			tg = append(tg, t)
 		}
-		c.mustPassReturns(rule, fn, tg, newCuts().AddEdges(stopE...), "an edge on which the flag is complete / not partial")
-		// (c) no further frame is read after a stop edge
-		okC := len(stopE) > 0
-		for _, e := range stopE {
-			for in := range more.Instrs {
-				if findPath(Point{e.To(), 0}, Target{Instr: in}, nil) != nil {
-					okC = false
-				}
+		byOrd := map[int][]RetPoint{}
+		var ords []int
+		for _, t := range tg {
+			o := retOrdinal(fn, t.Ret)
+			if _, ok := byOrd[o]; !ok {
+				ords = append(ords, o)
+			}
+			byOrd[o] = append(byOrd[o], t)
+		}
+		sort.Ints(ords)
+		for _, o := range ords {
+			ts := byOrd[o]
+			construct := fmt.Sprintf("%s#return%d", fnName(fn), o)
+			isRet := func(st *c04XState, in ssa.Instruction) bool { _, ok := x.SuccessReturn(st, in, ts); return ok }
+			if ok, path := x.Blocked(root.Entry(), &c04XQuery{Target: isRet, CutCond: stopC}); ok {
+				c.Ok(rule, construct, "every path to this return passes an edge on which the flag is complete / not partial", ts[0].Ret.Pos())
+			} else {
+				c.Violate(rule, construct, "a path reaches this return without passing an edge on which the flag is complete / not partial", ts[0].Ret.Pos(), c.describePath(path)...)
 			}
 		}
-		c.Check(okC, rule, fnName(fn)+"#complete=>stop", "no further frame is read after the complete flag", "a further frame is read although the flag said the message is complete: the next message is swallowed", calls[0].Pos())
+		// (c) no further frame is read after a stop edge
+		okC := x.Search(root.Entry(), &c04XQuery{Target: readsMore, NeedMark: true, MarkCond: stopC}) == nil
+		c.Check(okC && tested, rule, fnName(fn)+"#complete=>stop", "no further frame is read after the complete flag", "a further frame is read although the flag said the message is complete: the next message is swallowed", site.call.Pos())
+		c12Overflow(c, rule, x, fn)
 	}
 	// ReadFrame: result #1 is flag != partial
 	if rfr := c.needFn(rule, "stream", "(*Stream).ReadFrame"); rfr != nil {
-		calls := callsIn(rfr, rfe.Object())
+		x, root := c12View(c, rfr, rfe)
+		calls := c12Sites(root, func(call ssa.CallInstruction) bool { return calleeFn(call) == rfe })
 		k := 0
 		for _, t := range c.successTargets(rfr) {
 			k++
 			good := false
-			if bo, ok := t.Ret.Results[1].(*ssa.BinOp); ok && len(calls) == 1 {
-				flag := extractN(calls[0].Value(), 1)
-				cv, isC := constInt(bo.Y)
-				good = flag != nil && stripConv(bo.X) == flag && isC && ((bo.Op == token.NEQ && cv == partial) || (bo.Op == token.EQL && cv == complete))
+			if len(calls) == 1 {
+				if fv := extractN(calls[0].call.Value(), 1); fv != nil {
+					flag := c04XV{calls[0].fr, fv}
+					rv := x.Canon(nil, root, t.Ret.Results[1])
+					if bo, ok := rv.V.(*ssa.BinOp); ok {
+						cv, isC := x.constOf(nil, rv.Fr, bo.Y)
+						good = x.Canon(nil, rv.Fr, stripConv(bo.X)) == flag && isC && ((bo.Op == token.NEQ && cv == partial) || (bo.Op == token.EQL && cv == complete))
+					}
+				}
 			}
 			c.Check(good, rule, fnName(rfr)+"#isEOM-result", "isEOM is computed from the end flag of the frame just read", "isEOM is not (flag != EndFlagPartial) of the frame just read", t.Ret.Pos())
 		}
@@ -765,22 +1142,28 @@ func c01r4(c *Ctx) {
 	isEOMf := c.needField(rule, "message", "Message", "isEOM")
 	rfI := c.needObj(rule, "message", "StreamInterface.ReadFrame")
 	if ed != nil && isEOMf != nil && rfI != nil {
+		x, root := c12View(c, ed)
 		k := 0
-		for _, call := range callsIn(ed, rfI) {
+		for _, s := range c12Sites(root, func(call ssa.CallInstruction) bool { _, ok := isCallTo(call, rfI); return ok }) {
 			k++
-			flag := extractN(call.Value(), 1)
+			fv := extractN(s.call.Value(), 1)
 			stored := false
-			allInstrs(ed, func(_ *ssa.BasicBlock, _ int, in ssa.Instruction) {
-				if st, ok := in.(*ssa.Store); ok {
-					if fa, ok := st.Addr.(*ssa.FieldAddr); ok && fieldOfAddr(fa) == isEOMf && flag != nil && st.Val == flag {
-						stored = true
-					}
+			root.Walk(func(fr *c04Frame, in ssa.Instruction) {
+				if storeHit(isEOMf)(in) && fv != nil && x.Canon(nil, fr, in.(*ssa.Store).Val) == (c04XV{s.fr, fv}) {
+					stored = true
 				}
 			})
-			c.Check(stored, rule, fnName(ed)+"#isEOM-stored", "the end-of-message flag of each frame is recorded", "the end-of-message flag returned by ReadFrame is not stored in Message.isEOM", call.Pos())
-			off, _ := fieldCondEdges(ed, isEOMf)
-			c.mustPassInstr(rule, fnName(ed)+"#no-read-past-EOM", ed, call, newCuts().AddEdges(off...), "the edge on which isEOM is false")
+			c.Check(stored, rule, fnName(ed)+"#isEOM-stored", "the end-of-message flag of each frame is recorded", "the end-of-message flag returned by ReadFrame is not stored in Message.isEOM", s.call.Pos())
+			if ok, path := x.Blocked(root.Entry(), &c04XQuery{Target: s.at, CutCond: func(_ *c04XState, at c04XAtom, truth bool) bool {
+				on, isT := c04AtomField(at, isEOMf, truth)
+				return isT && !on
+			}}); ok {
+				c.Ok(rule, fnName(ed)+"#no-read-past-EOM", "every path to it passes the edge on which isEOM is false", s.call.Pos())
+			} else {
+				c.Violate(rule, fnName(ed)+"#no-read-past-EOM", "reachable without passing the edge on which isEOM is false", s.call.Pos(), c.describePath(path)...)
+			}
 		}
+		c12Overflow(c, rule, x, ed)
 		c.MinCount(rule, "ReadFrame invokes in ensureData", k, 1)
 	}
 }
